@@ -236,11 +236,25 @@ func TestVfWire(t *testing.T) {
 	must(err)
 	must(vfIP("addr", "add", "10.8.0.1/16", "dev", "vft0"))
 	must(vfIP("link", "set", "vft0", "up"))
-	vfReadNDJSON(t, os.Getenv("VF_SCENARIOS"), func(raw json.RawMessage) {
-		var sc vfWireScen
-		if err := json.Unmarshal(raw, &sc); err != nil {
-			t.Fatal(err)
-		}
+	var runOnce func(sc vfWireScen) map[string]interface{}
+	defer func() {
+		vfReadNDJSON(t, os.Getenv("VF_SCENARIOS"), func(raw json.RawMessage) {
+			var sc vfWireScen
+			if err := json.Unmarshal(raw, &sc); err != nil {
+				t.Fatal(err)
+			}
+			// a run during which the capturing socket itself lost frames says nothing about sx: repeat it (at most twice)
+			for attempt := 0; ; attempt++ {
+				ev := runOnce(sc)
+				if d, _ := ev["drops"].(int); d == 0 || attempt == 2 {
+					ev["attempts"] = attempt + 1
+					out.write([]map[string]interface{}{ev})
+					break
+				}
+			}
+		})
+	}()
+	runOnce = func(sc vfWireScen) map[string]interface{} {
 		for name, content := range sc.Files {
 			must(os.WriteFile(dir+"/"+name, []byte(content), 0o644))
 		}
@@ -466,10 +480,10 @@ func TestVfWire(t *testing.T) {
 			cs[k] = v
 		}
 		lmu.Unlock()
-		out.write([]map[string]interface{}{{"ev": "WireRun", "id": sc.ID, "name": sc.Name, "args": sc.Args, "probes": probes, "noise": noise, "drops": drops,
+		return map[string]interface{}{"ev": "WireRun", "id": sc.ID, "name": sc.Name, "args": sc.Args, "probes": probes, "noise": noise, "drops": drops,
 			"injected": inj, "stdout": lines, "stdoutComplete": complete, "stderr": errLines, "exit": code, "exitT": int(exitAt.Sub(t0) / time.Microsecond),
-			"killed": killed, "sigintT": sigintAt, "floodN": floodN, "conns": cs, "panic": strings.Contains(stderr.String(), "panic:") || strings.Contains(stderr.String(), "SIGSEGV") || strings.Contains(stderr.String(), "fatal error")}})
-	})
+			"killed": killed, "sigintT": sigintAt, "floodN": floodN, "conns": cs, "panic": strings.Contains(stderr.String(), "panic:") || strings.Contains(stderr.String(), "SIGSEGV") || strings.Contains(stderr.String(), "fatal error")}
+	}
 }
 
 // vfWireServe: one accepted loopback connection
